@@ -70,8 +70,13 @@ def put_case():
         src = _content(size)
         files = {}
         link = S.Link(files, Faults("write", fail or 0, code))
+        limit = ctx.choice("source-read()-returns-at-most", [None, 20000])      # a pipe or wrapper may return less than asked
+
+        class Source(io.BytesIO):
+            def read(self, n=-1):
+                return io.BytesIO.read(self, n if limit is None or n < 0 else min(n, limit))
         try:
-            link.client.putfo(io.BytesIO(src), "/dst", file_size=size, confirm=confirm)
+            link.client.putfo(Source(src), "/dst", file_size=size, confirm=confirm)
             outcome = "returned"
         except S.WouldBlockForever:
             outcome = "blocked"
@@ -88,7 +93,8 @@ def put_case():
             ctx.prove(rejected, "put-raises-only-when-something-failed")
     return Case("putfo", fn, ["put-returned=>destination-equals-source", "a-rejected-pipelined-write-surfaces-no-later-than-close",
                               "put-raises-only-when-something-failed"],
-                {"sizes": SIZES, "failing write": [None, 1, 2, 3], "error codes": [4, 3, 8, 1], "confirm": "on/off"})
+                {"sizes": SIZES, "failing write": [None, 1, 2, 3], "error codes": [4, 3, 8, 1], "confirm": "on/off",
+                 "source reads": "full, or at most 20000 bytes per read()"})
 
 
 def get_case():
